@@ -52,6 +52,91 @@ def diffstat(a, b):
     return {k: (names(a.get(k, [])), names(b.get(k, []))) for k in ("add", "delete", "modify", "unstaged", "untracked") if a.get(k) != b.get(k)}
 
 
+def _encode(snap, universe, ids):
+    """a snapshot as the three listings of the model's line protocol; signatures: 7 = what the index recorded, 8 = anything else"""
+    def num(h):
+        return ids.setdefault(h, len(ids) + 1)
+    pn = {p: i for i, p in enumerate(universe)}
+    head = ",".join("%d:%d:%d" % (pn[p], m, num(h)) for p, (m, h) in sorted(snap["head"].items())) or "-"
+    index = ",".join("%d:%d:%d:7" % (pn[p], m, num(h)) for p, (m, h, same) in sorted(snap["index"].items())) or "-"
+    work = ",".join("%d:%d:%d:%d:%d" % (pn[p], m, num(h), 7 if (p in snap["index"] and snap["index"][p][2]) else 8, 1 if isdir else 0)
+                    for p, (m, h, isdir) in sorted(snap["work"].items())) or "-"
+    return head, index, work
+
+
+def session_vs_model(rep, model, sessions):
+    """every observed state of every session through Status/StatusSession: (a) the five listings porcelain.status gives are the
+    model's for the observed (HEAD, index, work tree); (b) the index after add / add-all / rm --cached / unstage is the model's
+    step applied to the state observed before"""
+    lines, plan = [], []
+    for case, r in sessions:
+        snaps = [r.get("snap0")] + [st.get("snap") for st in r.get("steps", [])]
+        if any(not isinstance(x, dict) or "exc" in x for x in snaps):
+            bad = next(x for x in snaps if not isinstance(x, dict) or "exc" in x)
+            rep.fail("snapshot-raised", "reading the index / work tree back raised: %r" % (bad,), case)
+            continue
+        universe = sorted({p for sn in snaps for k in ("head", "index", "work") for p in sn[k]})
+        raw = [bytes.fromhex(p) for p in universe]
+        df = any(a != b and b.startswith(a + b"/") for a in raw for b in raw)
+        pn = {p: i for i, p in enumerate(universe)}
+        ids = {}
+        allp = ".".join(str(i) for i in range(len(universe))) or "-"
+        for k, st in enumerate(r.get("steps", []), start=1):
+            if "exc" in st.get("dulwich", {}):
+                continue
+            h, i, w = _encode(snaps[k], universe, ids)
+            lines.append("status 1 %s %s %s %s" % (h, i, w, allp))
+            plan.append(("status", dict(case, step=k - 1, edit=st["edit"][:1]), st["dulwich"], universe, None))
+            kind = st["edit"][0]
+            if st.get("applied") is True and kind in ("stage", "stage-all", "rm-cached", "unstage") and not df:
+                h0, i0, w0 = _encode(snaps[k - 1], universe, ids)
+                if kind == "stage-all":
+                    op = "stageall:" + allp
+                else:
+                    p = st["edit"][1]
+                    if p not in pn:
+                        continue
+                    if kind == "stage":
+                        isdir = snaps[k - 1]["work"].get(p, [0, 0, False])[2]
+                        op = "stage:%d" % pn[p] if not isdir else "stageall:%d" % pn[p]
+                    elif kind == "rm-cached":
+                        op = "rmcached:%d" % pn[p]
+                    else:
+                        # the synthetic signature unstage records (commit time) is the file's only by accident: what was observed decides
+                        same = snaps[k]["index"].get(p, [0, 0, False])[2]
+                        op = "unstage:%d:%d" % (pn[p], 7 if same and (p in snaps[k - 1]["index"] and snaps[k - 1]["index"][p][2]) else 8 if same else 9)
+                lines.append("step 1 %s %s %s %s %s" % (h0, i0, w0, allp, op))
+                plan.append(("step", dict(case, step=k - 1, edit=st["edit"][:1], op=op), snaps[k], universe, ids))
+    for (what, case, obs, universe, ids), m in zip(plan, model.run(lines)):
+        if what == "status":
+            got = {"add": [], "delete": [], "modify": [], "unstaged": [], "untracked": []}
+            for item in m.split():
+                pi, bits = item.split(":")
+                for key, bit in zip(("add", "delete", "modify", "unstaged", "untracked"), bits):
+                    if bit == "1":
+                        got[key].append(universe[int(pi)])
+            got = {k: sorted(v) for k, v in got.items()}
+            rep.case("status-vs-model", key=repr((case.get("trees"), case.get("edits"), case["step"])), nontrivial=True)
+            if got != {k: sorted(v) for k, v in obs.items()}:
+                rep.disagree("porcelain.status vs Status listings on the observed state", case, diffstat(got, obs), "(model, dulwich)")
+        else:
+            want = {}
+            for p, (mo, h, same) in obs["index"].items():
+                want[p] = "%d:%d:%d" % (mo, ids.get(h, -1), 1 if same else 0)
+            got = {}
+            for item in m.split():
+                f = item.split(":")
+                if f[1] != "-":
+                    got[universe[int(f[0])]] = "%s:%s:%s" % (f[1], f[2], f[3])
+            rep.case("index-step-vs-model", key=repr((case.get("trees"), case.get("edits"), case["step"])), nontrivial=True)
+            # (whether the recorded signature is the file's is compared only where the model says it is: a freshly staged entry)
+            norm = lambda d_: {p: v.rsplit(":", 1)[0] for p, v in d_.items()}
+            if norm(got) != norm(want) or any(got[p].endswith(":1") and not want[p].endswith(":1") for p in got if p in want and case["op"].startswith("stage")):
+                rep.disagree("index after %s vs StatusSession.step" % case["edit"][0], case,
+                             {bytes.fromhex(p).decode("latin1"): v for p, v in got.items() if want.get(p) != v},
+                             {bytes.fromhex(p).decode("latin1"): v for p, v in want.items() if got.get(p) != v})
+
+
 def run(rep):
     rng = rep.rng
     thorough = rep.tier == "thorough"
@@ -70,9 +155,9 @@ def run(rep):
         for imode in (0o100644, 0o100755):
             for iid in (1, 2):
                 for same in (True, False):
-                    for w in [None] + [[m, c, False] for m in (0o100644, 0o100755) for c in (1, 2)]:
+                    for w in [None, [0o40000, 0, True]] + [[m, c, False] for m in (0o100644, 0o100755) for c in (1, 2)]:
                         items.append([fm, imode, iid, same, w])
-                        lines.append("check %d %d %d %d %s" % (fm, imode, iid, 7, "- 0 0 0" if w is None else "%d %d %d %d" % (w[0], w[1], 7 if same else 8, 0)))
+                        lines.append("check %d %d %d %d %s" % (fm, imode, iid, 7, "- 0 0 0" if w is None else "%d %d %d %d" % (w[0], w[1], 7 if same else 8, 1 if w[2] else 0)))
     r = impl.run([{"fn": "check_entries", "items": items}])[0]
     got = r.get("v") or ["worker:" + str(r)[:80]] * len(items)
     for it, ln, m, g in zip(items, lines, model.run(lines), got):
@@ -98,7 +183,14 @@ def run(rep):
             # the second tree is the first with some executable bits flipped and nothing else changed
             fam[1] = [[p, {"f": "x", "x": "f"}.get(kd, kd) if rng.random() < 0.6 else kd, sd, sz] for p, kd, sd, sz in fam[0]]
         reqs.append({"fn": "session", "trees": fam, "edits": [], "switches": [[i, j] for i in range(3) for j in range(3) if i != j]})
-    for q, r in zip(reqs, impl.run(reqs)):
+    results = impl.run(reqs)
+    sessions = []
+    for q, r in zip(reqs, results):
+        case = {"trees": [[(bytes.fromhex(p).decode("latin1"), k, sd, sz) for p, k, sd, sz in t] for t in q["trees"]], "edits": [[e[0]] + ([bytes.fromhex(e[1]).decode("latin1")] if len(e) > 1 else []) for e in q["edits"]]}
+        if q["edits"] and isinstance(r, dict) and "snap0" in r:
+            sessions.append((case, r))
+    session_vs_model(rep, model, sessions)
+    for q, r in zip(reqs, results):
         case = {"trees": [[(bytes.fromhex(p).decode("latin1"), k, sd, sz) for p, k, sd, sz in t] for t in q["trees"]], "edits": [[e[0]] + ([bytes.fromhex(e[1]).decode("latin1")] if len(e) > 1 else []) for e in q["edits"]]}
         rep.case("session", key=repr(q), nontrivial=True, sample=case)
         if "checkout" not in r:
